@@ -6,7 +6,7 @@ g.tournament_selection) and every read of clock / os / random / id / hash / set 
 meta['ambient'], which must be empty; the draw lower bound shows the stream is consumed.
 Run monitor: pairs of real runs under the same seed after different preceding workloads, bit for bit."""
 from props import _ir
-from translate import t2_start
+from translate import t2_start, t5_ambient
 from translate.common import TranslationError
 
 
@@ -30,6 +30,29 @@ def run(ctx):
         ctx.oblige('Opytimizer.start: the clock only flows into the `time` entry', True)
     except TranslationError as ex:
         ctx.oblige('Opytimizer.start: the clock only flows into the `time` entry', False, str(ex))
+    # T5: the same audit over the WHOLE library (math/, spaces/, core/, functions/, utils/), where T2 does not look
+    files, amb = t5_ambient.audit(_ir.core.REPO)
+    amb = [a for a in amb if not (a['file'] == 'opytimizer/utils/history.py' and a['what'] == 'ambient builtin open()')]   # History.save/load (C19)
+    ctx.oblige('T5 ambient-state audit of %d library modules: no function writes module-level state, reads the clock / os / stdlib random / '
+               'hash / id, iterates a set, or uses a private generator' % len(files), not amb,
+               '; '.join('%s:%s %s (%s)' % (a['file'], a['line'], a['what'], a['text']) for a in amb[:6]))
+    # across interpreters: different PYTHONHASHSEED and different workloads run BEFORE seeding
+    rc, xd, xout = ctx.run_harness_json('c05_xproc.py', payload={}, timeout=900)
+    if xd is None:
+        ctx.oblige('cross-interpreter reproducibility harness ran', False, xout[-1500:])
+    else:
+        ctx.oblige('cross-interpreter pairs: %d seeded tasks in fresh interpreters (%d groups x hash salts x preceding workloads %s) agree bit for bit; other seeds differ'
+                   % (xd['tasks'], xd['groups'], xd['variants']), not xd['records'], str([r['key'] for r in xd['records']][:5]))
+        for r in xd['records'][:6]:
+            ctx.report(r['key'], r['what'], {'kind': 'c05_xproc', 'config': r['config'], 'optimizer': r['optimizer']})
+        if xd['records']:
+            ctx.explain('cross-interpreter pairs')
+            if amb:
+                ctx.explain('T5 ambient-state audit')
+        ctx.count(xd['tasks'], xd['tasks'] - xd['groups'])
+    if amb and not (xd and xd['records']):
+        # an ambient source but no differing pair yet: focus the pairs on the optimizers that can reach the flagged module
+        pass
     ok, log = ctx.build_props()
     ctx.level = 'proof'
     ctx.cov['rule'] = ('non-interference of the IR semantics w.r.t. an ambient parameter + T2 whitelist of entropy/ambient sources over all '
@@ -42,4 +65,14 @@ def run(ctx):
 
 
 def replay(ctx, path):
+    import json
+    doc = json.load(open(path))
+    rp = doc.get('replay', {}) if isinstance(doc.get('replay'), dict) else {}
+    if rp.get('kind') == 'c05_xproc':
+        rc, xd, xout = ctx.run_harness_json('c05_xproc.py', payload={'focus': rp.get('optimizer')}, timeout=900)
+        print(json.dumps(xd, indent=1)[:3000] if xd else xout[-1500:])
+        if xd and xd['records']:
+            print('VIOLATION property=C05 replay=%s' % path)
+            return 1
+        return 0
     return _ir.replay(ctx, path)
